@@ -30,6 +30,8 @@ func (pid *PID) Child(id string) *PID {
 
 func (pid *PID) LookupKey() uint64 {
 	key := []byte(pid.Address)
+	// keep address and id apart: ("ab","c") and ("a","bc") are different PIDs.
+	key = append(key, 0)
 	key = append(key, pid.ID...)
 	return xxh3.Hash(key)
 }
